@@ -8,6 +8,30 @@ var realTerminal = []string{"gmrtd iso7816.NfcSession", "gmrtd iso7816.SecureMes
 
 func RegisterAll() {
 	core.Register(&core.Check{
+		Property: "C14",
+		Level:    "fault_enumeration",
+		Rule: "live simulated session (CA with every curve/suite/key-id arrangement incl. legacy KAT, PACE-CAM, AA RSA/ECDSA) -> DocumentEx.ToCbor -> simulated store -> verifier.Verify with the same trust store; then a byzantine store rewrites each evidence field in turn (bit flips first/middle/last, +1/-1 for scalars and the counter, another valid curve point, other OIDs / parameter ids, empty, one-byte and oversized values, dropped bundle) and each document file / authenticated SOD region, recomputing every envelope checksum with its own CBOR writer; " +
+			"distinct_nontrivial counts distinct (mechanisms, CA arrangement, AA key, access arrangement, PA verdict) tuples; faults_injected counts rewrites per mechanism",
+		Engines:        []core.Engine{StoreVerifyEngine{}},
+		Assumptions:    []string{"scalar mutations are +-1 (never +n, which denotes the same key)", "the documented joint replacement of chip agreement key and encrypted chip authentication data in PACE-CAM evidence is generated and is the only accepted exception", "EF.COM, EF.DIR and EF.CardAccess without DG14 are not covered by any verdict and are not mutated"},
+		RealComponents: []string{"gmrtd reader (live capture), document CBOR export/import, verifier, chipauth/pace/activeauth VerifyEvidence, passiveauth"},
+		SimComponents:  []string{"SimChip + SimPKI world for the live session", "simulated store with byzantine rewriter (own CBOR writer)"},
+		RequiredProbes: []string{"cam_joint_replacement_accepted_documented_exception", "shared_secret_leading_zero"},
+		QuickBudget:    90, ThoroughBudget: 1500,
+	})
+	core.Register(&core.Check{
+		Property: "C15",
+		Level:    "fault_enumeration",
+		Rule: "per exported blob (Document and DocumentEx forms; seeded file subsets; real and synthetic evidence of each of the three kinds) the simulated store applies, completely: every byte position x substitutions {xor 01, xor 80, 00, FF} (all 255 values on the first 80 and last 4 bytes), every truncation length, extension by 1..16 bytes and by a whole second blob; plus foreign magics and newer versions at each nesting level written with valid checksums; fault-free round trip first; " +
+			"distinct_nontrivial counts distinct (blob form, file count, evidence kinds, size class) blobs; faults_injected counts individual corrupted imports",
+		Engines:        []core.Engine{StoreCorruptEngine{}},
+		Assumptions:    []string{"a lost write (stale but valid older blob) is not detectable by import and is outside the property", "nil and empty byte strings are the same content"},
+		RealComponents: []string{"gmrtd document CBOR export/import incl. every file constructor"},
+		SimComponents:  []string{"simulated store: bit-rot, torn writes, extension, byzantine envelope rewrite"},
+		Exhaustive:     func(tier string) bool { return false },
+		QuickBudget:    90, ThoroughBudget: 1800,
+	})
+	core.Register(&core.Check{
 		Property: "C11",
 		Level:    "fault_enumeration",
 		Rule: "per chip configuration (12: BAC / PACE-GM 3DES,AES / PACE-CAM / +AA RSA,ECDSA / +CA legacy,AT / extended length / ladder paths / untrusted issuer) the fault-free read fixes E exchanges; every exchange index k in [0,E) x every link fault variant (lost response/command, truncations, bit garbles, oversize, 9 bare status words, replays, swap, SM data-object drop/dup/reorder/re-encode, SW mismatch, chip power cycle, dead link) runs as its own simulation (quick: 3 configurations rotating with the seed, thorough: all), then seeded 2-5 fault plans biased to protocol transitions; " +
